@@ -76,7 +76,10 @@ func elemUniverse(c *core.Ctx, ts tierSizes) (ids []string, types []*engs.Type, 
 // hashes collide ("Aa" / "BB" under the 31-polynomial string hash).
 func extraTypes() []*engs.Type {
 	str := func() *engs.Type { return engs.Basic("string") }
-	return []*engs.Type{engs.Ptr(engs.Struct("S1", "local", engs.F("A", str()), engs.F("B", str()), engs.F("C", str())))}
+	c64 := func() *engs.Type { return engs.Basic("complex64") }
+	// complex64 is no leaf of TypesUpTo: as element / key type, in a struct, behind a pointer
+	return []*engs.Type{engs.Ptr(engs.Struct("S1", "local", engs.F("A", str()), engs.F("B", str()), engs.F("C", str()))),
+		c64(), engs.Struct("S1", "local", engs.F("A", c64())), engs.Ptr(c64())}
 }
 
 func checkLists(c *core.Ctx, prop string) error {
